@@ -251,13 +251,21 @@ func genHistory(r *rand.Rand, variant int) []Mut {
 		case k < 5:
 			cnt := 2 + r.Intn(4)
 			mu = Mut{Kind: "AddBatch"}
+			// one batch in four carries members without an ID (the store assigns one to each;
+			// the model learns it from the signature the call hands back)
+			autoIDs := r.Intn(4) == 0
 			for j := 0; j < cnt; j++ {
 				s := mk("")
 				if j > 0 && r.Intn(3) == 0 {
 					s.ID = mu.Sigs[r.Intn(j)].ID
 				}
+				if autoIDs && (j < 2 || r.Intn(2) == 0) {
+					s.ID = ""
+				}
 				mu.Sigs = append(mu.Sigs, s)
-				live[s.ID] = s
+				if s.ID != "" {
+					live[s.ID] = s
+				}
 			}
 		case k < 8: // update moving all three indexes
 			ids := sigs.SortedIDs(live)
@@ -508,6 +516,17 @@ func main() {
 			mkdir(ed)
 			for mi := range j.hist {
 				kind := j.hist[mi].Kind
+				if kind == "AddBatch" {
+					noID := 0
+					for _, sg := range j.hist[mi].Sigs {
+						if sg.ID == "" {
+							noID++
+						}
+					}
+					if noID >= 2 {
+						res.Count("batches_with_several_members_without_id", 1)
+					}
+				}
 				// (the bulk load of variant 2 is enumerated like any other mutation: a batch of more
 				// than a thousand signatures must be all-or-nothing too)
 				report := func(n int, v verdict) {
